@@ -28,6 +28,15 @@ def tol_for(dtype):
 # ---------------------------------------------------------------------------------------------
 # generation
 
+def tensor_shape_of(r):
+    """tensor shape of the field from one uniform draw: scalar, the Jones shapes (2,), (2,2), and other orders/extents
+    (odd extents, extent 1, non-square, order 3) — the decorator multiplex_for_tensor_fields and the ZoomFFT accept any"""
+    for bound, shape in ((0.55, []), (0.73, [2]), (0.85, [2, 2]), (0.88, [3]), (0.90, [1]), (0.93, [2, 3]), (0.95, [3, 1]), (0.975, [2, 1, 2])):
+        if r < bound:
+            return list(shape)
+    return [1, 3, 2]
+
+
 def _dy(rng, lo, hi, bits):
     n = int(rng.integers(int(round(lo * (1 << bits))), int(round(hi * (1 << bits))) + 1))
     return n / float(1 << bits)
@@ -133,7 +142,7 @@ def gen_case(rng, big, directed=None):
     if square:
         case['square'] = True
     r = rng.random()
-    case['tensor'] = [] if r < 0.6 else ([2] if r < 0.85 else [2, 2])
+    case['tensor'] = tensor_shape_of(r)
     case['dtype'] = 'complex64' if rng.random() < 0.2 else 'complex128'
     case['field'] = gen_field(rng, case['N'])
     case['gseed'] = int(rng.integers(0, 2 ** 31))
@@ -289,7 +298,7 @@ def gen_steps(rng, dims, nsteps):
         r = rng.random()
         steps.append({'dir': 'f' if rng.random() < 0.5 else 'b',
                       'dtype': 'complex64' if rng.random() < 0.4 else 'complex128',
-                      'tensor': [] if r < 0.5 else ([2] if r < 0.8 else [2, 2]),
+                      'tensor': tensor_shape_of(0.1 + 0.9 * r),
                       'field': gen_field(rng, dims),
                       'gseed': int(rng.integers(0, 2 ** 31))})
     return steps
@@ -1240,7 +1249,7 @@ def run(ctx, prop='C01'):
         from harness.props import c01_ties
         k = ctx.scale(1, 6)
         c01_ties.run_ties(ctx, {'tie-mft': 25 * k, 'tie-czt': 25 * k, 'tie-zoom': 20 * k, 'tie-zoomaxes': 12 * k, 'tie-state': 25 * k,
-                                'tie-lit': 16 * k, 'tie-select': 40 * k, 'tie-roundtrip': 40 * k, 'tie-fftw': 16 * k, 'tie-nft': 20 * k})
+                                'tie-lit': 16 * k, 'tie-select': 40 * k, 'tie-roundtrip': 40 * k, 'tie-fftw': 16 * k, 'tie-nft': 20 * k, 'tie-mux': 20 * k, 'tie-mftstate': 25 * k})
     if ctx.boundary_skipped > 0.05 * max(1, ctx.traces_validated):
         raise MachineryError('more than 5 % of the correspondence cases were skipped at a float decision boundary')
 
